@@ -68,7 +68,7 @@ for p in props:
         na.append({"property_id": i, "reason": "check not built yet (work in progress); will be claimed once the engine exists"})
 m = {
  "version": 1,
- "setup_cmd": "cd /verif/sim && CARGO_NET_OFFLINE=true cargo build --release --offline",
+ "setup_cmd": "cd /verif/sim && CARGO_NET_OFFLINE=true cargo build --release --offline && CARGO_NET_OFFLINE=true cargo build --offline",
  "hooks": {
    "guard": "sml_rs_verif",
    "enable": "no hook exists: every seam is public API (io::Read, embedded-hal serial::Read, iterator / slice sources, ArrayBuf<N>, the harness binary's global allocator); checks build /repo as a path dependency with features std,alloc,nb,embedded-hal-02",
